@@ -68,6 +68,8 @@ RAW_DOCS = [
     # a style declaration that restates the initial value overrides a hiding attribute (own or inherited)
     '<svg %s><g fill="none"><rect x="5" y="5" width="20" height="20" style="fill:black"/></g></svg>' % _NS,
     '<svg %s><rect x="5" y="5" width="20" height="20" fill="red" opacity="0" style="opacity:1"/></svg>' % _NS,
+    '<svg %s><rect x="5" y="5" width="20" height="20" fill="red" display="none" style="display:inline"/></svg>' % _NS,
+    '<svg %s><path d="M5,30 L35,30" fill="none" stroke="red" stroke-width="2" display="none" style="display:block"/></svg>' % _NS,
     '<svg %s><g display="none"><path d="M5,5 L30,30 L30,5 Z" fill="blue" style="display:inline"/></g><path d="M2,35 L38,35" stroke="red" stroke-width="0" fill="none" style="stroke-width:1"/></svg>' % _NS,
 ]
 
@@ -112,6 +114,14 @@ def gen_shape(rng):
             styled.append((k, v))
         else:
             at[k] = v
+    # a style declaration outranks the presentation attribute of the same name: now and then the attribute says the opposite
+    hiding = {"fill": "none", "stroke": "none", "stroke-width": "0", "opacity": "0", "fill-opacity": "0",
+              "stroke-opacity": "0", "display": "none"}
+    showing = {"fill": "red", "stroke": "blue", "stroke-width": "2", "opacity": "1", "fill-opacity": "1",
+               "stroke-opacity": "1", "display": "inline"}
+    for k, v in styled:
+        if k in hiding and rng.random() < 0.3:
+            at[k] = showing[k] if v == hiding[k] or v in ("0.0",) else hiding[k]
     if styled or rng.random() < 0.05:
         st = ";".join("%s:%s" % kv for kv in styled)
         if rng.random() < 0.1:
